@@ -504,6 +504,16 @@ func (g *FuncGen) evalCall(n *Node, env *Env) (Val, error) {
 			t = fmt.Sprintf("(s_arr %s)", t)
 		}
 		return Val{fmt.Sprintf("(>= %s %s)", t, g.entryAllocFor(env)), tBool}, nil
+	case "live": // allocated by now: below the allocation counter of the heap the expression is evaluated in
+		a, err := args()
+		if err != nil {
+			return Val{}, err
+		}
+		t := a[0].Term
+		if _, ok := a[0].Type.Underlying().(*types.Slice); ok {
+			t = fmt.Sprintf("(s_arr %s)", t)
+		}
+		return Val{fmt.Sprintf("(< %s %s)", t, g.allocTerm(env.heap)), tBool}, nil
 	case "allocated": // existed at entry
 		a, err := args()
 		if err != nil {
